@@ -351,6 +351,30 @@ Definition setrt_body (tbl : table) (sys : system) (st : set) (probes : list sx)
                             end) ps;;
   Ok (SL [SB sym_ok; SB s1; r; SL rows]).
 
+Definition k_creqseq : bytes := [99;114;101;113;115;101;113]%N.
+
+(* one resolve.MatchRequirement call: membership of every candidate.  The model has no state:
+   every call is answered from its own arguments. *)
+Definition req_call (call : sx) : res sx :=
+  match call with
+  | SL [SI sysi; SB text; SL cands; SL tb] =>
+      match sys_of_index sysi, decode_table tb with
+      | Some sys, Some tbl =>
+          pc <- (match parse_constraint (pv_of tbl) sys text with
+                 | Ok c => Ok (Some c) | Err _ => Ok None | Panic p => Panic p | OutOfFuel => OutOfFuel end);;
+          bits <- map_res (fun t => match t with
+                                    | SB cand =>
+                                        match pc with
+                                        | None => Ok (sx_bool (bytes_eqb cand text))
+                                        | Some c => b0 <- match_string (pv_of tbl) c cand;; Ok (sx_bool b0)
+                                        end
+                                    | _ => Panic PExplicit end) cands;;
+          Ok (SL [SL bits; SL bits])
+      | _, _ => Panic PExplicit
+      end
+  | _ => Panic PExplicit
+  end.
+
 Definition k_setdiag : bytes := [115;101;116;100;105;97;103]%N.
 Definition k_cdiag : bytes := [99;100;105;97;103]%N.
 
@@ -472,6 +496,10 @@ Definition run_Constraint (kind : bytes) (a : sx) : option sx :=
                           Ok (SL [SB sym_ok; SB s1; r; SL rows]))
               | _, _ => badcase
               end
+          | _ => badcase end)
+  else if bytes_eqb kind k_creqseq then
+    Some (match a with
+          | SL calls => sx_out (r <- map_res req_call calls;; Ok (SL [SB sym_ok; SL r]))
           | _ => badcase end)
   else if bytes_eqb kind k_setop_d then
     Some (match a with
